@@ -5,7 +5,7 @@
     than [m] probes returns [Hang], and [run] then ends with the output [RFail true].  [not_fail w]
     says that [w] is neither a hang nor a panic. *)
 From Coq Require Import List NArith Permutation.
-From Algo.C02 Require Import Model Spec ProofsChain.
+From Algo.C02 Require Import Model Spec ProofsChain ProofsLinear.
 Import ListNotations.
 
 (** Separate chaining (no probe loop: buckets are walked structurally): no operation of any history
@@ -23,6 +23,24 @@ Proof.
   intros. split.
   - eapply outs_match_no_fail. apply chain_refines; eauto.
   - erewrite outs_match_length by (apply chain_refines; eauto). apply run_spec_length.
+Qed.
+
+(** Linear probing: every probe loop (Put, Get, Delete, and the cluster re-insertion loop of Delete)
+    ends within its fuel [m], i.e. after at most [m] probes, in every history, for every hash function
+    (constant ones included), valid options and iteration oracle; nothing panics either. *)
+Theorem C03_terminates_linear :
+  forall (K V : Type) (eqb : K -> K -> bool) (eqv : V -> V -> bool) (hash : K -> N) (minlf maxlf : lf),
+    (forall a b, eqb a b = true <-> a = b) ->
+    valid_open minlf maxlf ->
+    forall (cap : nat), valid_cap_linear cap ->
+    forall (orc : nat -> nat -> list nat -> list nat), (forall i j l, Permutation (orc i j l) l) ->
+    forall ops : list (op K V),
+      Forall (not_fail K V) (run K V eqb eqv hash minlf maxlf orc Linear cap ops) /\
+      length (run K V eqb eqv hash minlf maxlf orc Linear cap ops) = length ops.
+Proof.
+  intros. split.
+  - eapply outs_match_no_fail. apply linear_refines; eauto.
+  - erewrite outs_match_length by (apply linear_refines; eauto). apply run_spec_length.
 Qed.
 
 (** D03's history on the model of the repaired code: [Put i; Delete i] for 40 fresh keys, then a Put
@@ -47,3 +65,4 @@ Example C03_example_churn :
 Proof. vm_compute. split; reflexivity. Qed.
 
 Print Assumptions C03_terminates_chain.
+Print Assumptions C03_terminates_linear.
